@@ -105,7 +105,7 @@ class NetworkService(ModelElement):
                         self.__service_guardrails(sliver, i)
                         self.connect_interface(interface=i)
                         connected_interfaces.append(i)
-                    except TopologyException as e:
+                    except Exception as e:
                         # disconnect previously connected interfaces
                         for ii in connected_interfaces:
                             self.disconnect_interface(ii)
